@@ -183,6 +183,33 @@ def run_codec(cfg, counters, violations, samples, distinct):
                 except Exception as e:
                     viol("roundtrip-raises" if wire == want else classify_codec(n, masked, "write", "header"),
                          "frame %s: reading the library's own bytes raised %r" % (case, e), case)
+                # the reserved bits and FIN are part of the frame: every combination is written where RFC 6455 puts it (FIN 0x80, RSV1 0x40,
+                # RSV2 0x20, RSV3 0x10) and read back into the same flags
+                if n in (0, 5, 126, 65536) or idx % 9 == 0:
+                    for bits in range(16):
+                        fin_, r1, r2, r3 = (bits >> 3) & 1, (bits >> 2) & 1, (bits >> 1) & 1, bits & 1
+                        try:
+                            f3 = H.WebSocketFrame()
+                            f3.flags.fin, f3.flags.rsv1, f3.flags.rsv2, f3.flags.rsv3 = fin_, r1, r2, r3
+                            f3.flags.opcode = getattr(H.WebSocketOpCode, opname)
+                            f3.payload = payload
+                            f3.payload_length = len(payload)
+                            if masked:
+                                f3.flags.mask = 1
+                                f3.masking_key = key
+                            s3 = RecSock()
+                            H.writeFrameFactory(s3)(f3)
+                            w3 = b"".join(s3.out)
+                            want0 = (fin_ << 7) | (r1 << 6) | (r2 << 5) | (r3 << 4) | OPS[opname]
+                            g3 = H.readFrameFactory(RecSock(w3))()
+                            counters.inc("flag_combinations_checked")
+                            got_flags = (g3.flags.fin, g3.flags.rsv1, g3.flags.rsv2, g3.flags.rsv3)
+                            if w3[0] != want0 or w3[1:] != want[1:] or got_flags != (fin_, r1, r2, r3):
+                                viol("flag-bits-differ", "frame %s with FIN=%d RSV=%d%d%d: first byte 0x%02x (RFC: 0x%02x), read back as FIN/RSV %r" % (case, fin_, r1, r2, r3, w3[0], want0, got_flags), case)
+                                break
+                        except Exception as e:
+                            viol("write-raises", "frame %s with FIN=%d RSV=%d%d%d raised %r" % (case, fin_, r1, r2, r3, e), case)
+                            break
                 # the parts of the encoding are functions of the frame, whatever order they are asked for in (a frame that was only
                 # constructed, never written): data header first, then header
                 if idx % 2 == 0 or n in (125, 126, 127, 65535, 65536):
@@ -614,7 +641,7 @@ def finish(tier, seed, results):
     inconclusive = []
     need(m["counters"], ["frames_written", "frames_read", "roundtrips", "streams_fed_channel", "streams_fed_direct",
                          "control_ok", "exhaustive_cut_sets", "frames_delivered_in_order", "concurrent_connections", "long_lived_connections",
-                         "header_parts_checked", "frames_written_twice"], inconclusive)
+                         "header_parts_checked", "frames_written_twice", "flag_combinations_checked"], inconclusive)
     if m["counters"].get("control_ok", 0) != m["counters"].get("control_streams", -1):
         inconclusive.append("positive control failed: frame-aligned single-frame reads were not all delivered "
                             "(%s of %s) - the harness cannot attach" % (m["counters"].get("control_ok"), m["counters"].get("control_streams")))
